@@ -139,11 +139,16 @@ class History:
 
 def run_history(args):
     h = History()
+    watch = args.get('observe_at')
+    if watch is not None:
+        _ = h.c.stats
     for k, s in enumerate(args['steps']):
         try:
             done = h.step(tuple(s))
         except Exception as e:  # noqa
             return {'reproduced': True, 'observed': f'step {k} {s}: {e!r}'}
+        if watch is not None and k not in watch:
+            continue
         bad = wf(h.c)
         if bad:
             return {'reproduced': True, 'observed': f'after step {k} {s}: {bad[:3]}'}
@@ -155,7 +160,7 @@ def history_part(tier, seed):
                                            'kyupy.circuit.GrowingList', 'Circuit.copy/__getstate__/__setstate__/eliminate_1to1_forks/stats'],
                     'edit histories from the empty circuit over the public API (add cell / fork, implicit line, explicit line on free pins, remove line, remove disconnected node, '
                     'mark as port, copy, pickle round trip, eliminate 1:1 forks); wf (consecutive indices = positions, name lookups, every line referenced exactly from its '
-                    'driver and reader pin, gap-free fork outputs, stats) after every step; exhaustive over a small alphabet up to a stated length, seeded long histories beyond; '
+                    'driver and reader pin, gap-free fork outputs, stats) after every step, and the same histories with wf / stats observed only at the start and at a few later points; exhaustive over a small alphabet up to a stated length, seeded long histories beyond; '
                     'distinct = history; non-trivial = contains a removal',
                     f'exhaustive length <= {4 if tier == "quick" else 5} over 12 moves; {300 if tier == "quick" else 5000} seeded histories of length <= 60')
     moves = [('cell', 0), ('cell', 3), ('fork',), ('line', 0, 1), ('line', 1, 2), ('line', 2, 0), ('xline', 0, 1, 1, 1), ('rmline', 0), ('rmline', 1), ('rmnode', 0),
@@ -173,12 +178,22 @@ def history_part(tier, seed):
             op = rng.choices(['cell', 'fork', 'line', 'xline', 'rmline', 'rmnode', 'io', 'copy', 'pickle', 'elim'], [6, 4, 10, 4, 5, 4, 2, 1, 1, 1])[0]
             steps.append((op,) + tuple(rng.randrange(0, 50) for _ in range(4)))
         check_history(b, steps)
+        # the same history observed rarely: derived data (statistics) is read at the start and then only at a few later points, so that anything cached
+        # across edits shows up
+        pts = sorted(set([len(steps) - 1] + [rng.randrange(len(steps)) for _ in range(2)]))
+        check_history(b, steps, observe_at=pts)
+    for n in range(1, min(maxlen, 4) + 1):
+        for tail in itertools.product(moves, repeat=n):
+            steps = prefix + list(tail)
+            check_history(b, steps, exhaustive=True, observe_at=[len(steps) - 1])
     return b
 
 
-def check_history(b, steps, exhaustive=False):
+def check_history(b, steps, exhaustive=False, observe_at=None):
     h = History()
     nontrivial = False
+    if observe_at is not None:
+        _ = h.c.stats
     for k, s in enumerate(steps):
         try:
             done = h.step(s)
@@ -189,11 +204,16 @@ def check_history(b, steps, exhaustive=False):
             return
         if done and s[0] in ('rmline', 'rmnode', 'elim'):
             nontrivial = True
+        if observe_at is not None and k not in observe_at:
+            continue
         bad = wf(h.c)
         if bad:
             b.case(tuple(steps[:k + 1]), True)
-            b.violation(f'bounded:C09:wf-after:{s[0]}', f'history {steps[:k + 1]}: after {s}: {bad[0]}', 'bounded.graph_drv:run_history',
-                        {'steps': [list(x) for x in steps[:k + 1]]}, function='kyupy.circuit')
+            args = {'steps': [list(x) for x in steps[:k + 1]]}
+            if observe_at is not None:
+                args['observe_at'] = [x for x in observe_at if x <= k]
+            b.violation(f'bounded:C09:wf-after:{s[0]}' + (':observed-rarely' if observe_at is not None else ''), f'history {steps[:k + 1]}: after {s}: {bad[0]}',
+                        'bounded.graph_drv:run_history', args, function='kyupy.circuit')
             return
     b.case(tuple(steps), nontrivial, sample={'steps': [list(s) for s in steps[:8]], 'length': len(steps)})
 
@@ -367,6 +387,28 @@ def check_resolve(c, lib):
     return out
 
 
+def check_datasheet(lib, libname, kind):
+    """a fully connected instance of a datasheet-family cell, resolved, computes the datasheet function at every output (real LogicSim, all input combinations)"""
+    from spec import datasheet
+    from bounded import techlib_drv
+    impl, pins = lib.cells[kind]
+    ins = [p for p, (i, o) in sorted(pins.items(), key=lambda kv: kv[1][0]) if not o]
+    outs = [p for p, (i, o) in sorted(pins.items(), key=lambda kv: kv[1][0]) if o]
+    fam = datasheet.family(kind, ins, outs)
+    if fam is None or '__error__' in fam or len(ins) > 6:
+        return []
+    try:
+        tt = techlib_drv.truth_table(impl, pins, ins, outs)
+    except Exception as e:  # noqa
+        return [('resolve:datasheet-function', f'{libname}.{kind}: {e!r}')]
+    for o, f in fam.items():
+        for k in range(1 << len(ins)):
+            env = {p: bool((k >> j) & 1) for j, p in enumerate(ins)}
+            if int(bool(f(env))) != tt[o][k]:
+                return [('resolve:datasheet-function', f'{libname}.{kind} pin {o}: inputs {env} give {tt[o][k]} after substitution, the datasheet function gives {int(bool(f(env)))}')]
+    return []
+
+
 def cells_part(tier):
     from kyupy import techlib
     b = BoundedPart('C10-resolve-every-library-cell', ['kyupy.circuit.Circuit.substitute', 'kyupy.circuit.Circuit.resolve_tlib_cells', 'kyupy.techlib.*'],
@@ -393,6 +435,8 @@ def cells_part(tier):
                 subsets += allsub
             else:
                 subsets += rng.sample(allsub, min(len(allsub), 4 if tier == 'quick' else 24))
+            for clause, msg in check_datasheet(lib, libname, kind):
+                b.violation(f'bounded:C10:{clause}:{libname}.{kind}', msg, 'bounded.graph_drv:run_datasheet', {'lib': libname, 'kind': kind}, function='kyupy.techlib')
             for ci, co in subsets:
                 c, _, _ = instance_circuit(lib, kind, ci, co)
                 b.case((libname, sig, tuple(sorted(ci)), tuple(sorted(co))), True, sample={'lib': libname, 'cell': kind, 'connected_inputs': sorted(ci), 'connected_outputs': sorted(co)})
@@ -458,6 +502,12 @@ def multi_instance_circuit(lib, empty, logic_cells, nfill, where, rng):
         Line(c, f, o)
         srcs.append(f)
     return c
+
+
+def run_datasheet(args):
+    lib = lib_by_name(args['lib'])
+    v = check_datasheet(lib, args['lib'], args['kind'])
+    return {'reproduced': bool(v), 'violated': v}
 
 
 def run_multi(args):
